@@ -230,6 +230,8 @@ def run(ctx):
   for sc_i in range(60 if big else 24):
     ncl = rng.randint(1, 9)
     b = rng.choice([1, 2, 3, 5, ncl, ncl + 1, ncl + 2, ncl + 7])     # buffers shorter than, equal to and longer than the population
+    if min(b, ncl) > 6:
+      ncl = rng.randint(1, 6)       # (the trace specification enumerates the min(b, n)! initial fills)
     seed = rng.choice([0, rng.randint(1, 10**6)])
     fd = fedjax.InMemoryFederatedData({b'c%03d' % i: {'x': np.arange(i + 1)} for i in range(ncl)})
     fd_kind = ('InMemoryFederatedData', 'SubsetFederatedData', 'slice')[sc_i % 3]
